@@ -344,9 +344,13 @@ func init() {
 			cr.bounds["polynomial_announcements"] = fmt.Sprintf("%d master-key await states x {identical encoding, one more commitment, another coefficient, one commitment less, another JSON layout} with symbolic 2-byte commitments, in addition to opaque 0..1-byte values", len(pj))
 		}
 		cj := []Job{ceremonyJob("c02n2", 2, 2, map[string]string{"noleak": "1"}, "announcements and keyrings"),
-			ceremonyJob("c02n3", 3, 2, map[string]string{"round2": "1", "t2": "3", "noleak": "1"}, "two rounds on the same machines (t=2, then t=3)")}
+			ceremonyJob("c02n2r2", 2, 2, map[string]string{"round2": "1", "t2": "2", "noleak": "1"}, "two rounds on the same machines (n=2)")}
 		nat := []map[string]int{{}, {}}
 		if cr.Tier == "thorough" {
+			// n = 3 (different thresholds in the two rounds): minutes of solver time and `unknown` answers on a loaded machine,
+			// hence not part of the quick tier
+			cj = append(cj, ceremonyJob("c02n3", 3, 2, map[string]string{"round2": "1", "t2": "3", "noleak": "1"}, "two rounds on the same machines (t=2, then t=3)"))
+			nat = append(nat, map[string]int{})
 			cj = append(cj, ceremonyJob("c02n3t3", 3, 3, map[string]string{"round2": "1", "t2": "2", "noleak": "1"}, "two rounds on the same machines (t=3, then t=2)"))
 		}
 		runCeremony(cr, cj, nat)
